@@ -26,6 +26,12 @@ pub enum Form {
   Clone,
   Convert,
   Probe,
+  /// lock engine: exclusive / shared acquisition (blocking or async), try variants, release
+  LockEx,
+  LockSh,
+  TryLockEx,
+  TryLockSh,
+  Unlock,
 }
 
 impl Form {
@@ -50,6 +56,11 @@ impl Form {
       Form::Clone => "clone",
       Form::Convert => "convert",
       Form::Probe => "probe",
+      Form::LockEx => "lock_exclusive",
+      Form::LockSh => "lock_shared",
+      Form::TryLockEx => "try_lock_exclusive",
+      Form::TryLockSh => "try_lock_shared",
+      Form::Unlock => "unlock",
     }
   }
   pub fn is_send(self) -> bool {
@@ -75,7 +86,15 @@ impl Form {
   pub fn is_blocking(self) -> bool {
     matches!(
       self,
-      Form::Send | Form::SendBatch | Form::SendBatchMut | Form::Recv | Form::RecvBatch | Form::RecvBatchMut | Form::StreamNext
+      Form::Send
+        | Form::SendBatch
+        | Form::SendBatchMut
+        | Form::Recv
+        | Form::RecvBatch
+        | Form::RecvBatchMut
+        | Form::StreamNext
+        | Form::LockEx
+        | Form::LockSh
     )
   }
 }
